@@ -12,7 +12,7 @@ import time
 ROOT = os.path.dirname(os.path.dirname(os.path.abspath(__file__)))
 SPEC = os.path.join(ROOT, "spec")
 HARNESS = os.path.join(ROOT, "harness")
-WORK = os.path.join(ROOT, ".work")
+WORK = os.environ.get("VERIF_WORK") or os.path.join(ROOT, ".work")   # VERIF_WORK: a scratch directory for ad-hoc runs beside a registered one
 NCPU = os.cpu_count() or 4
 
 GOENV = {"GOFLAGS": "-mod=mod", "GOPROXY": "off", "GOSUMDB": "off", "GOTOOLCHAIN": "local"}
